@@ -141,6 +141,86 @@ def run(c, replay):
         elif "COUNTS_EQUAL 1" not in L:
             c.violation("record-counts-differ", dict(kind="property", program=text, config=desc, counts=[l for l in L if l.startswith(("NODE", "T "))]), True)
     c.cov["time0_shutdown_runs_checked"] = t0_ok
+    # ---- several ranks: one file holds every node's records; each node's per-thread counters are compared with the hook trace of that
+    # rank (remote anti-messages take their own paths in process.c: early ones are parked without any rollback)
+    mrjobs = []
+    for k in range(6 if c.tier == "quick" else 60):
+        p = progen.gen_program(r, lps=r.choice([4, 6, 8]), target=r.choice([60, 150, 300]), zero_ts=(k % 3 == 0))
+        text = progen.render(p)
+        pf = os.path.join(ctx["sd"], "mrst%d.txt" % k)
+        open(pf, "w").write(text)
+        mrjobs.append((k, text, pf, r.choice([1, 2, 2]), r.choice([1, 2, 3]), r.choice([50, 100, 300]), r.choice(["100,3000,3,%d", "0,5000,5,%d", "300,8000,10,%d"]) % (c.seed * 7 + k)))
+
+    def mr_one(job):
+        k, text, pf, th, ck, gp, net = job
+        sf = os.path.join(ctx["sd"], "mrstats_%d" % k)
+        tf = os.path.join(ctx["sd"], "mrsttrace%d.txt" % k)
+        res = S.run_sim(ctx["exe"], pf, threads=th, ckpt=ck, gvt=gp, ranks=2, net=net, stats=sf, trace_file=tf, trace_mask=mask, watchdog=25, timeout=60)
+        traces = []
+        for rk in range(2):
+            f = "%s.rank%d" % (tf, rk)
+            traces.append(S.read_trace(f))
+            if os.path.exists(f):
+                os.remove(f)
+        return job, res, sf + ".bin", traces
+    with ThreadPoolExecutor(3) as ex:
+        mrres = list(ex.map(mr_one, mrjobs))
+    mr_ok = mr_recs = 0
+    for (k, text, pf, th, ck, gp, net), res, sf, traces in mrres:
+        desc = dict(threads=th, checkpoint_interval=ck, gvt_period_us=gp, ranks=2, network_delays=net, cmd=res.cmd)
+        if res.sanitizer:
+            C.sanitizer_violation(c, res, text, desc)
+            continue
+        if not res.returned or not os.path.exists(sf):
+            continue
+        rc, so, se = V.run([ctx["mexe"], "stats", sf], timeout=120)
+        L = so.split("\n")
+        if "DECODE ok" not in L:
+            c.violation("stats-not-parsable", dict(kind="property", program=text, config=desc, decoder=so[:200]), True)
+            continue
+        if "COUNTS_EQUAL 1" not in L:
+            c.violation("record-counts-differ", dict(kind="property", program=text, config=desc, counts=[l for l in L if l.startswith(("NODE", "T "))]), True)
+            continue
+        mr_ok += 1
+        node = -1
+        recs = {}
+        for l in L:
+            if l.startswith("NODE"):
+                node += 1
+            elif l.startswith("R "):
+                f = l.split()
+                recs.setdefault((node, int(f[1])), []).append([int(x, 0) for x in f[2:]])
+        bad = None
+        for rk, tr in enumerate(traces):
+            cur, per = {}, {}
+            for rec in tr:
+                t = rec["rid"]
+                cnt = cur.setdefault(t, [0] * 6)
+                kd = rec["kind"]
+                if kd == "FORWARD": cnt[0] += 1
+                elif kd == "ROLLBACK": cnt[1] += 1
+                elif kd == "UNDO": cnt[2] += 1
+                elif kd == "CKPT": cnt[3] += 1
+                elif kd == "SILENT": cnt[4] += 1
+                elif kd == "ANTI": cnt[5] += 1
+                elif kd == "STATS_GVT":
+                    per.setdefault(t, []).append(cnt)
+                    cur[t] = [0] * 6
+            for (nd, t), rl in recs.items():
+                if nd != rk:
+                    continue
+                for i, rcd in enumerate(rl):
+                    if i >= len(per.get(t, [])):
+                        break
+                    exp = per[t][i]
+                    got = [rcd[M_PROC], rcd[M_ROLLBACK], rcd[M_MSG_ROLLBACK], rcd[M_CKPT], rcd[M_SILENT], rcd[M_ANTI]]
+                    mr_recs += 1
+                    good = (got[1:3] == exp[1:3] and got[4:] == exp[4:] and got[3] == exp[3] and 0 <= got[0] - exp[0] <= 8) if i == 0 else got == exp
+                    if not good and bad is None:
+                        bad = dict(node=rk, thread=t, record=i, file=got, traced=exp, order="processed, rollbacks, undone, checkpoints, silent, anti")
+        if bad:
+            c.violation("counters-differ", dict(kind="property", program=text, config=desc, **bad), True)
+    c.cov.update(two_rank_files_checked=mr_ok, two_rank_thread_records_compared=mr_recs)
     C.finish(c, ctx)
     c.cov.update(evaluations=len(runs) + len(t0jobs), distinct_nontrivial=many_rounds, runs_returned=ok, thread_records_compared_with_trace=recs_checked,
                  files_with_zero_rounds=zero_rounds, files_with_more_than_3_rounds=many_rounds,
